@@ -20,6 +20,27 @@ mod imp {
     use tevec::map::WinsorizeMethod;
     use tevec::prelude::*;
 
+    /// a fallible item stream (vcut with values that may fall outside the bins) collected into every output
+    /// container by both fallible collectors: Ok(cells) / Err - the containers must agree on the error path too
+    pub fn fallible_outputs(vals: &[X]) -> Vec<(&'static str, Outcome<Result<Vec<Cell>, ()>>)> {
+        let v: Vec<f64> = enc_vec(vals);
+        let bins: Vec<f64> = vec![0.0, 2.0, 5.0];
+        let labels: Vec<f64> = vec![100.0, 101.0];
+        macro_rules! go {
+            ($O:ty, $how:ident) => {
+                catch(|| v.titer().vcut(&bins, &labels, true, false).expect("label count is right").$how::<$O>().map(|o| o.cells()).map_err(|_| ()))
+            };
+        }
+        vec![
+            ("Vec / try_collect_vec1", go!(Vec<f64>, try_collect_vec1)),
+            ("Vec / try_collect_trusted_vec1", go!(Vec<f64>, try_collect_trusted_vec1)),
+            ("VecDeque / try_collect_vec1", go!(VecDeque<f64>, try_collect_vec1)),
+            ("VecDeque / try_collect_trusted_vec1", go!(VecDeque<f64>, try_collect_trusted_vec1)),
+            ("Array1 / try_collect_vec1", go!(Array1<f64>, try_collect_vec1)),
+            ("Array1 / try_collect_trusted_vec1", go!(Array1<f64>, try_collect_trusted_vec1)),
+        ]
+    }
+
     /// one single-series rolling call into every output container / path: (label, outcome)
     pub fn roll1_all_outputs<V, T>(f: R1, v: &V, w: usize, mp: Option<usize>) -> Vec<(&'static str, Outcome<Vec<Cell>>)>
     where
@@ -868,6 +889,30 @@ impl TreeSys for Fam {
     }
 }
 
+/// the error path of a fallible result is independent of the output container (round 11)
+fn check_fallible(ctx: &mut Ctx) {
+    let fam = "fallible-outputs";
+    let alpha: Vec<X> = vec![None, Some(-3.0), Some(1.0), Some(3.0), Some(7.0)];
+    for w in all_words_upto(alpha.len(), 3) {
+        let x = decode(&w, &alpha);
+        ctx.states += 1;
+        ctx.fam(fam).states += 1;
+        ctx.nontrivial(fam, hash_bytes(&w));
+        let outs = fallible_outputs(&x);
+        let reference = format!("{:?}", outs[0].1);
+        for (label, got) in &outs {
+            ctx.transitions += 1;
+            let g = format!("{got:?}");
+            ctx.eval(fam, hash_bytes(g.as_bytes()));
+            if g != reference {
+                viol(ctx, format!("vcut -> {label}"), None, x.len(), json!({"family": fam, "word": w, "series": json_word(&x), "output": label}), format!("as Vec / try_collect_vec1: {}", truncate(&reference, 200)), truncate(&g, 200));
+            } else {
+                ctx.traces += 1;
+            }
+        }
+    }
+}
+
 fn main() {
     let run = Run::from_args("C07");
     let fam = Fam { alpha: vec![None, Some(0.0), Some(1.0), Some(3.0)], max_len: run.pick(4, 6), level: 1 };
@@ -879,7 +924,9 @@ fn main() {
         let mut ctx = Ctx::new();
         let w = syms_from_json(&stored["case"]["word"]);
         let series = word_from_json(&stored["case"]["series"]);
-        if w.is_empty() && !series.is_empty() {
+        if stored["case"]["family"] == "fallible-outputs" {
+            check_fallible(&mut ctx);
+        } else if w.is_empty() && !series.is_empty() {
             check_series(&[], series, 0, &mut ctx);
         } else {
             check_word(&w, &fam.alpha, 1, &mut ctx);
@@ -888,10 +935,15 @@ fn main() {
     }
     let mut total = explore_tree(&fam, run.threads);
     total.merge(matrix_long(!run.quick(), run.threads));
+    {
+        let mut c = Ctx::new();
+        check_fallible(&mut c);
+        total.merge(c);
+    }
     total.sample(json!({"cell": {"function": "ts_vstd", "input": "VecDeque(head=6,wrapped)", "output": "Array1/Buf", "series": [0, null, 3, 1], "w": 2}, "oracle": "identical to Vec -> Vec/Ret"}));
     total.sample(json!({"cell": {"function": "vquantile(0.25, Linear)", "input": "Float64Chunked[1, 2, 1]", "series": [1, 0, null, 3]}, "oracle": "identical to Vec"}));
     let meta = Meta {
-        rule: "finite matrix: every word over {null,0,1,3} up to length L, realised as every input back-end configuration (Vec, Arc<Vec>, [T;N], VecDeque x 8 head offsets incl. wrapped, Array1, ArrayView1 steps 1,2,3,-1,-2, ArrayViewMut1, Arc<Array1>, OptIter<Vec>, OptIter<Array1>, Float64Chunked / &Float64Chunked under every chunking into <= 3 chunks with validity bitmaps) for element types f64 (NaN) and Option<f64>, x every output container (Vec, VecDeque, Array1, Float64Chunked; returned and caller buffer) x every function: 23 single-series and 7 two-series rolling functions with a representative (w, min_periods) set, the mapping set, the aggregations incl. quantiles, Spearman, half_life, winsorize; oracle = the same call on Vec returning Vec, exact comparison (None ~ NaN). Accessor sub-check per container: len, get(0..=len), uget, titer forwards / backwards / alternating, slice(a,b) for all a<=b<=len, try_as_slice. Non-trivial = distinct words (each expanded into the whole matrix). Configuration families (DESIGN 5.15): caller buffers in non-canonical layouts (wrapped rings, strided / reversed views) for every built-in statistic; the user-function drivers (rolling_custom, rolling_apply, rolling2_custom, rolling_apply_idx) and a lazy mapping result returned, written into a canonical buffer and into every layout, for every input back end. Round 8 (DESIGN 5.17): every container also as the *second* series of the two-series functions (first series in a Vec). Round 10 (DESIGN 5.19): owned ndarray arrays in a non-standard layout (slice_move with steps 2, 3, -1, -2; invert_axis; also behind Arc and .opt()) among the input back ends of every family that visits the back ends.".into(),
+        rule: "finite matrix: every word over {null,0,1,3} up to length L, realised as every input back-end configuration (Vec, Arc<Vec>, [T;N], VecDeque x 8 head offsets incl. wrapped, Array1, ArrayView1 steps 1,2,3,-1,-2, ArrayViewMut1, Arc<Array1>, OptIter<Vec>, OptIter<Array1>, Float64Chunked / &Float64Chunked under every chunking into <= 3 chunks with validity bitmaps) for element types f64 (NaN) and Option<f64>, x every output container (Vec, VecDeque, Array1, Float64Chunked; returned and caller buffer) x every function: 23 single-series and 7 two-series rolling functions with a representative (w, min_periods) set, the mapping set, the aggregations incl. quantiles, Spearman, half_life, winsorize; oracle = the same call on Vec returning Vec, exact comparison (None ~ NaN). Accessor sub-check per container: len, get(0..=len), uget, titer forwards / backwards / alternating, slice(a,b) for all a<=b<=len, try_as_slice. Non-trivial = distinct words (each expanded into the whole matrix). Configuration families (DESIGN 5.15): caller buffers in non-canonical layouts (wrapped rings, strided / reversed views) for every built-in statistic; the user-function drivers (rolling_custom, rolling_apply, rolling2_custom, rolling_apply_idx) and a lazy mapping result returned, written into a canonical buffer and into every layout, for every input back end. Round 8 (DESIGN 5.17): every container also as the *second* series of the two-series functions (first series in a Vec). Round 10 (DESIGN 5.19): owned ndarray arrays in a non-standard layout (slice_move with steps 2, 3, -1, -2; invert_axis; also behind Arc and .opt()) among the input back ends of every family that visits the back ends. Round 11 (DESIGN 5.20): fallible-outputs - a fallible item stream (vcut with values outside the bins) through try_collect_vec1 / try_collect_trusted_vec1 into Vec, VecDeque, Array1: the same Ok / Err from every output container.".into(),
         bounds: json!({"alphabet": json_word(&fam.alpha), "L": fam.max_len, "w": "1,2,3,len+1", "min_periods": "omitted, 1, w"}),
         assumptions: vec!["calls that panic on the reference and on the cell alike count as equal".into(), "try_as_slice(): None always acceptable, Some must be the logical sequence (DESIGN 5.6)".into()],
         exhaustive: true,
